@@ -34,6 +34,7 @@ func checkC11(w *World, r *Result) {
 		Undecided("C11: the import walk / setImplements map loops were not found")
 	}
 	pkgIDRule(w, r, func(rel string) bool { return rel == "analysis" })
+	checkSelectorRoot(w, r)
 }
 
 func appendStmts(info *types.Info, body ast.Node, target string) []*ast.AssignStmt {
